@@ -170,7 +170,7 @@ class NonlinearForm(Form):
 
         # JAX version
         def _make_jacobian(V):
-            if 'hessian' in self.params:
+            if self.params.get('hessian', False):
                 return linearize(
                     lambda W: jvp(lambda U: self.form(*U, w), (W,), (V,))[1],
                     x
